@@ -22,6 +22,18 @@ def Cmd.ofInp : Inp R E → Cmd R E
 def script (ins : List (Inp R E)) (closeAtEnd : Bool) : List (Cmd R E) :=
   ins.map Cmd.ofInp ++ (if closeAtEnd then [.close] else [])
 
+/-- an invariant of the step function holds after every input history -/
+theorem Machine.state_inv (step : σ → Inp R E → Out M V E × σ) (P : σ → Prop)
+    (hstep : ∀ s i, P s → P (step s i).2) (init : σ) (h0 : P init) (hist : List (Inp R E)) :
+    P (Machine.state step init hist) := by
+  have key : ∀ (hist : List (Inp R E)) (acc : Out M V E × σ), P acc.2 →
+      P (hist.foldl (fun acc i => step acc.2 i) acc).2 := by
+    intro hist
+    induction hist with
+    | nil => intro acc h; exact h
+    | cons i hist ih => intro acc h; exact ih _ (hstep _ i h)
+  exact key hist _ h0
+
 /-- a generator object running the machine `step` -/
 def mpos (step : σ → Inp R E → Out M V E × σ) (init : σ) (h : List (Inp R E)) (st : Status) :
     Pos M R V E := ⟨Beh.ofMachine step init, h, st⟩
